@@ -3,6 +3,8 @@ import os
 import re
 import facts
 import mir
+import sql
+from mir import short
 from mir import term_str, strip_refs, callee_name, field_path, full_path
 
 # digest function -> (struct whose serialised fields must be covered, receiver/param prefix -> struct field mapping)
@@ -257,3 +259,100 @@ def run(P, C, tier):
         C.ob("R6", "bootstrap-rows-signed", ok, ia.loc(), "init_allowed_peers signs the peer row, the allowed-peer row and its reference before writing them (%d sign calls)" % len(sg))
     except mir.MissingAnchor as e:
         C.anchor_missing("R6", "init_allowed_peers", e)
+    r8_whole_row_writes(P, C)
+    r9_strict_verification(P, C)
+
+
+SIGNED_TABLES = ("_node", "_edge", "_node_deletion_log", "_edge_deletion_log")
+
+
+def _table_columns(P):
+    """columns of the four signed tables, read from the constant CREATE TABLE texts of the crate"""
+    cols = {}
+    for b in P.bodies.values():
+        for bi, callee, text, holes, term in sql.statements(b):
+            if not text:
+                continue
+            for m in re.finditer(r"CREATE\s+TABLE\s+(\w+)\s*\((.*?)\)\s*(WITHOUT\s+ROWID\s*,\s*)?STRICT", text, re.I | re.S):
+                t = m.group(1)
+                if t in SIGNED_TABLES:
+                    cs = []
+                    for part in re.split(r",(?![^()]*\))", m.group(2)):
+                        w = part.strip().split()
+                        if w and w[0].upper() not in ("PRIMARY", "UNIQUE", "FOREIGN", "CHECK", "CONSTRAINT"):
+                            cs.append(w[0])
+                    cols[t] = cs
+    return cols
+
+
+def r8_whole_row_writes(P, C):
+    C.rule("R8", "the signature verifies against the row exactly as stored only if a stored row is one signed row: every statement that writes one of the four "
+                 "signed tables writes the complete row (all columns, no partial ON CONFLICT/UPDATE), and binds each column to the field of the same name of one object")
+    cols = _table_columns(P)
+    C.floor("R8", "signed table definitions", len(cols), 4)
+    n = 0
+    for b in sorted(P.bodies.values(), key=lambda x: x.id):
+        if "::tests::" in b.id or "_test::" in b.id or "seeded_demo" in b.id:
+            continue
+        sts = [(bi, text) for bi, callee, text, holes, term in sql.statements(b) if text]
+        for bi, text in sts:
+            tx = sql.norm(text)
+            m = re.match(r"(INSERT(\s+OR\s+REPLACE)?\s+INTO|REPLACE\s+INTO|UPDATE)\s+(\w+)", tx, re.I)
+            if not m or m.group(3) not in SIGNED_TABLES:
+                continue
+            table = m.group(3)
+            want = cols.get(table, [])
+            n += 1
+            if m.group(1).upper().startswith("UPDATE"):
+                setpart = re.split(r"\bWHERE\b", re.split(r"\bSET\b", tx, flags=re.I)[1], flags=re.I)[0]
+                written = re.findall(r"(\w+)\s*=\s*\?", setpart)
+                partial = False
+            else:
+                mm = re.search(r"\(([^)]*)\)\s*VALUES", tx, re.I)
+                written = [c.strip() for c in mm.group(1).split(",")] if mm else []
+                partial = re.search(r"ON\s+CONFLICT.*DO\s+UPDATE", tx, re.I) is not None
+            whole = sorted(written) == sorted(want) and not partial
+            # the bound values: the tuple passed to execute/insert of the prepared statement, by position
+            bound_ok = None
+            detail_b = "no execute/insert of this statement found"
+            if True:
+                for qb, qt in b.calls_to(r"Statement.*::(execute|insert)$"):
+                    recv = b.call_args(qb, expand_vars=True)[0]
+                    pc = mir.has_call(recv, r"prepare(_cached)?$")
+                    if pc is None or pc[3] != bi:
+                        continue
+                    qa = b.call_args(qb)
+                    params = strip_refs(qa[1])
+                    if params[0] != "aggr":
+                        bound_ok = False
+                        detail_b = "parameters are not a tuple of fields: %s" % term_str(params)[:80]
+                        continue
+                    items = params[4][:len(written)]
+                    roots = set()
+                    names_ok = True
+                    for col, it in zip(written, items):
+                        fp = field_path(strip_refs(it))
+                        parts = fp.split(".")
+                        roots.add(".".join(parts[:-1]))
+                        if parts[-1].lstrip("_") != col.lstrip("_"):
+                            names_ok = False
+                    bound_ok = (bound_ok is not False) and names_ok and len(roots) == 1 and len(items) == len(written)
+                    detail_b = "columns bound to %s" % [term_str(strip_refs(i)) for i in items]
+            key = "whole-row:%s:%s#%d" % (table, short(b.id), len([1 for o in C.obligations if o["key"].startswith("C06/R8/whole-row:%s:%s#" % (table, short(b.id)))]))
+            C.ob("R8", key, whole and bound_ok is True, b.loc(bi),
+                 "`%s…` writes %d of the %d columns of %s%s; %s" % (tx[:40], len(set(written) & set(want)), len(want), table, " with a partial ON CONFLICT update" if partial else "", detail_b))
+    C.floor("R8", "write statements on signed tables", n, 9)
+
+
+def r9_strict_verification(P, C):
+    C.rule("R9", "a signature binds exactly one row only under strict Ed25519 verification: every signature check of the crate goes through "
+                 "ed25519_dalek::VerifyingKey::verify_strict (the cofactorless `verify` accepts small-order keys, e.g. the identity point with R = identity, s = 0, "
+                 "for EVERY message: one signature valid for all rows)")
+    sites = [(b, bi, t) for b, bi, t in P.call_sites(r"ed25519_dalek::.*(::verify|::verify_strict|::verify_prehashed\w*)$")
+             if "::tests::" not in b.id and not b.blocks[bi]["cl"]]
+    C.floor("R9", "ed25519 verification call sites", len(sites), 1)
+    for n, (b, bi, t) in enumerate(sites):
+        name = (t.get("nrf") or "") + " " + t["nf"]
+        strict = re.search(r"::verify_strict$", t["nf"]) is not None or re.search(r"::verify_strict$", t.get("nrf") or "") is not None
+        C.ob("R9", "strict-verification:%s#%d" % (short(b.id), n), strict, b.loc(bi),
+             "%s calls %s" % (short(b.id), t["nf"]) + ("" if strict else " -- the non-strict check: the key [type, 0x01, 0x00 x31] with signature [0x01, 0x00 x63] verifies for any row content"))
